@@ -28,3 +28,76 @@ Proof.
 Qed.
 
 Print Assumptions issued_twice_disjoint.
+
+(* ---------- along sessions: only _get_new_node_ids moves the counter, and only upwards ---------- *)
+From FT Require Import Proofs.EditFrame Proofs.EditSegNone.
+
+Definition nc (a b : state) : Prop := nctr b = nctr a.
+Lemma nc_aux a b : aux_eq a b -> nc a b. Proof. intros (_ & _ & _ & H & _). exact H. Qed.
+Lemma nc_top_wrap top p (r : res action) st : nc st (rstate r) -> nc st (rstate (top_wrap top p r)).
+Proof.
+  intros H. destruct r as [a s|e s]; cbn in *; [|exact H]. destruct top; [|exact H].
+  unfold nc in *. rewrite <- H. apply finish_top_spec.
+Qed.
+
+Lemma nc_user_update_seg st nv groups T force : nc st (rstate (user_update_seg st nv groups T force)).
+Proof.
+  pose proof (nc_aux _ _ (aux_user_update_seg_core st nv groups T force)) as H.
+  unfold user_update_seg. destruct (user_update_seg_core st nv groups T force) as [[a pl] s|e s]; cbn in *; [|exact H].
+  unfold nc in *. rewrite <- H. apply finish_top_spec.
+Qed.
+
+Theorem step_nctr st o : (forall k, o <> ONewIds k) -> nctr (fst (step st o)) = nctr st.
+Proof.
+  intros Hk. destruct o; cbn [step]; rewrite ?fst_fin, ?fst_finb.
+  - apply nc_top_wrap, nc_aux, aux_user_add_edge_core.
+  - apply nc_top_wrap, nc_aux, aux_user_delete_edge_core.
+  - apply nc_top_wrap, nc_aux, aux_user_add_node_core.
+  - apply nc_top_wrap, nc_aux, aux_user_delete_node_core.
+  - apply nc_top_wrap, nc_aux, aux_user_swap_core.
+  - apply nc_top_wrap, nc_aux, aux_user_update_attrs_core.
+  - unfold paint. destruct (seg st) as [sg|]; [|apply nc_user_update_seg].
+    destruct (negb (frame_ok sg t)); [reflexivity|].
+    match goal with |- context [user_update_seg ?p new_value ?gs T force] =>
+      pose proof (nc_user_update_seg p new_value gs T force) as H;
+      destruct (user_update_seg p new_value gs T force) as [a s|e s] end; cbn [rstate] in *.
+    + exact H.
+    + unfold nc in H. cbn [nctr upd_seg] in H. destruct (seg s); cbn; exact H.
+  - unfold undo. destruct (_ <=? _)%nat; [reflexivity|]. destruct (nth_error _ _) as [a|]; [|reflexivity].
+    pose proof (nc_aux _ _ (aux_inv_action st a)) as H. destruct (inv_action st a) as [b s|e s]; cbn in *; exact H.
+  - unfold redo. destruct (rev (redo_stack st)) as [|b r]; [reflexivity|].
+    match goal with |- context [inv_action ?s0 b] => pose proof (nc_aux _ _ (aux_inv_action s0 b)) as H;
+      destruct (inv_action s0 b) as [x s|e s] end; cbn in *; exact H.
+  - pose proof (nc_aux _ _ (aux_track_neighbors st T t)) as H. destruct (track_neighbors st T t) as [s [p c]]. exact H.
+  - reflexivity.
+  - exfalso. exact (Hk n eq_refl).
+  - reflexivity.
+Qed.
+
+Theorem step_nctr_mono st o : nctr st <= nctr (fst (step st o)).
+Proof.
+  destruct o; try (rewrite step_nctr; [lia|intros; discriminate]).
+  cbn [step]. destruct (get_new_node_ids st n) as [s ids] eqn:E. cbn [fst].
+  pose proof (get_new_node_ids_spec st n s ids E) as H. lia.
+Qed.
+
+Theorem run_nctr_mono : forall ops st, nctr st <= nctr (run st ops).
+Proof.
+  unfold run. induction ops as [|o r IH]; intros st; cbn [fold_left]; [lia|].
+  pose proof (step_nctr_mono st o). specialize (IH (fst (step st o))). lia.
+Qed.
+
+(* any two issuing calls of one session, whatever happens in between (edits, undo, redo, refusals):
+   the ids issued later are all larger than the ids issued earlier *)
+Theorem session_issued_ids_increase st k1 mid k2 :
+  let s1 := fst (step st (ONewIds k1)) in
+  let s2 := run s1 mid in
+  forall i j, In i (snd (snd (step st (ONewIds k1)))) -> In j (snd (snd (step s2 (ONewIds k2)))) -> i < j.
+Proof.
+  cbv zeta. cbn [step]. destruct (get_new_node_ids st k1) as [s1 ids1] eqn:E1. cbn [fst snd].
+  destruct (get_new_node_ids (run s1 mid) k2) as [s2 ids2] eqn:E2. cbn [fst snd].
+  intros i j Hi Hj. pose proof (issued_range _ _ _ _ E1 i Hi). pose proof (issued_range _ _ _ _ E2 j Hj).
+  pose proof (run_nctr_mono mid s1). lia.
+Qed.
+
+Print Assumptions session_issued_ids_increase.
